@@ -1,8 +1,12 @@
 package main
 
 import (
+	"fmt"
 	"math"
 	"strings"
+
+	d "github.com/ostafen/clover/v2/document"
+	"github.com/ostafen/clover/v2/query"
 )
 
 // repeatedOperandBulk (C03): bulk writes selected by an In list that names the same value more than once (the same
@@ -175,6 +179,177 @@ func dropOneOfSeveralIndexes(c *Ctx, dr *Driver, be string) bool {
 		if o.Index >= 0 {
 			if reportHistoryProblem(c, dr, im, lines, &o, be, HistOpts{}, "drop-one-of-several") {
 				return false
+			}
+		}
+	}
+	return true
+}
+
+// binaryAndArrayRanges (C17, on the implementation alone: the protocol carries no binary values): an indexed field that
+// mixes binary values with ordinary arrays of the same numbers (Compare treats a []byte as the array of its bytes):
+// every range with bounds of either kind, both directions, and the index-ordered sort - against the un-indexed twin.
+func binaryAndArrayRanges(c *Ctx, be string) bool {
+	im := NewImpl(be, c.Scratch)
+	defer im.Destroy()
+	db := im.db
+	arr := func(xs ...int64) []interface{} {
+		out := []interface{}{}
+		for _, x := range xs {
+			out = append(out, x)
+		}
+		return out
+	}
+	vals := []interface{}{[]byte{1, 2}, arr(1, 3), []byte{1, 4}, arr(1, 2), []byte{}, arr(), arr(1), []byte{1}, []byte{2}, arr(0, 9), []byte{1, 2, 0}, arr(1, 2, 0), int64(7), "s"}
+	for _, coll := range []string{"ba0", "ba1"} {
+		db.CreateCollection(coll)
+	}
+	db.CreateIndex("ba1", "v")
+	for _, coll := range []string{"ba0", "ba1"} {
+		for i, v := range vals {
+			doc := d.NewDocumentOf(map[string]interface{}{"_id": fixedId(698000 + i), "v": v, "n": int64(i)})
+			if err := db.Insert(coll, doc); err != nil {
+				c.Violation(&Replay{Backend: be, Stream: "binary-ranges", Case: []interface{}{J{"k": "insert", "n": i}}, Actual: []string{err.Error()}, Note: "insert of a binary / array value failed"})
+				return false
+			}
+		}
+	}
+	ids := func(docs []*d.Document) string {
+		out := []string{}
+		for _, doc := range docs {
+			out = append(out, fmt.Sprint(doc.Get("n")))
+		}
+		return strings.Join(out, ",")
+	}
+	for bi, b := range vals[:12] {
+		for _, op := range []string{"gt", "ge", "lt", "le", "eq"} {
+			for _, dir := range []int{1, -1} {
+				c.Evals++
+				mk := func(coll string) *query.Query {
+					f := query.Field("v")
+					var cr query.Criteria
+					switch op {
+					case "gt":
+						cr = f.Gt(b)
+					case "ge":
+						cr = f.GtEq(b)
+					case "lt":
+						cr = f.Lt(b)
+					case "le":
+						cr = f.LtEq(b)
+					default:
+						cr = f.Eq(b)
+					}
+					return query.NewQuery(coll).Where(cr).Sort(query.SortOption{Field: "v", Direction: dir}, query.SortOption{Field: "n", Direction: 1})
+				}
+				d0, e0 := db.FindAll(mk("ba0"))
+				d1, e1 := db.FindAll(mk("ba1"))
+				if e0 != nil || e1 != nil || ids(d0) != ids(d1) {
+					c.Violation(&Replay{Backend: be, Stream: "binary-ranges", Case: []interface{}{J{"k": "range", "op": op, "bound": bi, "dir": dir}}, Expected: []string{"without index: " + ids(d0)}, Actual: []string{"with index: " + ids(d1), fmt.Sprint(e0, e1)},
+						Note: "a range over an indexed field mixing binary values and arrays answers differently from the un-indexed twin"})
+					return false
+				}
+			}
+		}
+	}
+	c.Count("binary-and-array-ranges")
+	return true
+}
+
+// bigFailingInserts (C12 / C04, on the implementation alone): one Insert of 1100-2600 documents whose LAST documents
+// hold the offence - an _id already stored, an _id repeated inside the batch, a malformed _id - is refused as a whole:
+// an error, the raw dump unchanged, the count unchanged, none of the batch retrievable.
+func bigFailingInserts(c *Ctx, be string) bool {
+	im := NewImpl(be, c.Scratch)
+	defer im.Destroy()
+	db := im.db
+	db.CreateCollection("bi")
+	db.CreateIndex("bi", "x")
+	if err := db.Insert("bi", d.NewDocumentOf(map[string]interface{}{"_id": fixedId(699000), "x": int64(-1)})); err != nil {
+		panic(err)
+	}
+	before := im.Dump()
+	for _, n := range []int{1100, 2600} {
+		for _, kind := range []string{"stored-id", "repeated-id", "malformed-id"} {
+			c.Evals++
+			docs := []*d.Document{}
+			for i := 0; i < n; i++ {
+				docs = append(docs, d.NewDocumentOf(map[string]interface{}{"_id": fixedId(700000 + i), "x": int64(i % 50)}))
+			}
+			switch kind {
+			case "stored-id":
+				docs[n-3].Set("_id", fixedId(699000))
+			case "repeated-id":
+				docs[n-1].Set("_id", fixedId(700000+n-40))
+			default:
+				docs[n-20].Set("_id", "not-a-uuid")
+			}
+			err := db.Insert("bi", docs...)
+			cnt, _ := db.Count(query.NewQuery("bi"))
+			first, _ := db.FindById("bi", fixedId(700000))
+			after := im.Dump()
+			bad := ""
+			switch {
+			case err == nil:
+				bad = "the insert succeeded"
+			case cnt != 1:
+				bad = fmt.Sprintf("the insert failed (%v) but the collection now counts %d documents instead of 1", err, cnt)
+			case first != nil:
+				bad = fmt.Sprintf("the insert failed (%v) but the first document of the batch can be retrieved", err)
+			case after != before:
+				bad = fmt.Sprintf("the insert failed (%v) but the raw content of the store changed", err)
+			}
+			if bad != "" {
+				c.Violation(&Replay{Backend: be, Stream: "big-failing-insert", Case: []interface{}{J{"k": "big-failing-insert", "documents": n, "offence": kind}}, Actual: []string{bad},
+					Note: "an Insert that is refused for one of its last documents must change nothing"})
+				return false
+			}
+			c.Count("big-failing-insert")
+		}
+	}
+	return true
+}
+
+// bulkByIdCells (C03): bulk writes whose whole criterion is an equality on _id - with a skip, with limit 0, with the id
+// given as a reference to another field ("$self", Field("self"), "$_id"): the documents rewritten / deleted are the ones
+// FindAll selects for the same query, window and references included.
+func bulkByIdCells(c *Ctx, dr *Driver, be string) bool {
+	im := NewImpl(be, c.Scratch)
+	defer im.Destroy()
+	idf := hx("_id")
+	id := func(i int) string { return fixedId(699500 + i) }
+	qs := []J{
+		{"crit": J{"cmp": []interface{}{"eq", idf, J{"lit": encValue(id(1))}}}},
+		{"crit": J{"cmp": []interface{}{"eq", idf, J{"lit": encValue(id(1))}}}, "skip": 1},
+		{"crit": J{"cmp": []interface{}{"eq", idf, J{"lit": encValue(id(1))}}}, "limit": 0},
+		{"crit": J{"cmp": []interface{}{"eq", idf, J{"lit": encValue("$self")}}}},
+		{"crit": J{"cmp": []interface{}{"eq", idf, J{"ref": hx("self")}}}},
+		{"crit": J{"cmp": []interface{}{"eq", idf, J{"lit": encValue("$_id")}}}},
+		{"crit": J{"cmp": []interface{}{"eq", idf, J{"lit": encValue("$other")}}}},
+	}
+	for _, q0 := range qs {
+		for _, kind := range []string{"set", "delete"} {
+			lines := []J{opLine("createCollection", J{"coll": hx("bd")})}
+			docs := []interface{}{}
+			for j := 0; j < 4; j++ {
+				docs = append(docs, encDoc(map[string]interface{}{"_id": id(j), "self": id(j), "other": id((j + 1) % 4), "n": int64(j)}))
+			}
+			lines = append(lines, opLine("insert", J{"coll": hx("bd"), "docs": docs}))
+			q := cloneJ(q0)
+			q["coll"] = hx("bd")
+			lines = append(lines, opLine("findAll", J{"q": q}))
+			if kind == "set" {
+				lines = append(lines, opLine("update", J{"q": q, "upd": J{"setAll": []interface{}{[]interface{}{hx("n"), encValue(int64(50))}}}}))
+			} else {
+				lines = append(lines, opLine("delete", J{"q": q}))
+			}
+			lines = append(lines, J{"k": "dump"}, opLine("count", J{"q": J{"coll": hx("bd")}}), opLine("findAll", J{"q": J{"coll": hx("bd"), "sort": []interface{}{[]interface{}{idf, 1}}}}))
+			o := runHistory(dr, im, lines, HistOpts{})
+			recordHistory(c, lines, &o, be)
+			c.Count("bulk-by-id")
+			if o.Index >= 0 {
+				if reportHistoryProblem(c, dr, im, lines, &o, be, HistOpts{}, "bulk-by-id") {
+					return false
+				}
 			}
 		}
 	}
